@@ -93,7 +93,11 @@ package swagen30
 //@ loop 1 invariant forall(j, 0, _n, implies(!relevantFields[j].IsEmbedded && swagtool.fieldRequired(relevantFields[j]), exists(r, 0, len(requiredFields), requiredFields[r] == swagtool.jsonName(relevantFields[j]))))
 //@ loop 1 invariant forall(r, 0, len(requiredFields), exists(j, 0, _n, !relevantFields[j].IsEmbedded && swagtool.fieldRequired(relevantFields[j]) && requiredFields[r] == swagtool.jsonName(relevantFields[j])))
 
-//@ func GenerateSpec props C08,C20,C01,C14
+//@ func GenerateSpec props C08,C20,C01,C13,C14
+// the bytes that leave the generator went through the canonical re-ordering, whatever the models are (C13: insertion
+// order of aliases and of OAuth scopes is not canonical)
+//@ mayemit orderedJSON
+//@ ensures canonical: implies(result1 == nil, evcount(orderedJSON) == old(evcount(orderedJSON))+1)
 //@ modifies any(openapi3.PathItem), any(openapi3.Paths), any(openapi3.Responses), any(definitions.TypeMetadata.Name), any(elems([]*openapi3.ParameterRef)), any(openapi3.RequestBody), any(openapi3.RequestBodyRef), any(elems(openapi3.Content)), any(elems(openapi3.Schemas)), any(elems([]string)), any(openapi3.Schema.Description), any(openapi3.Schema.Required), any(openapi3.Schema.Format), any(openapi3.Schema.Min), any(openapi3.Schema.Max), any(openapi3.Schema.ExclusiveMin), any(openapi3.Schema.ExclusiveMax), any(openapi3.Schema.MinLength), any(openapi3.Schema.MaxLength), any(openapi3.Schema.Pattern), any(openapi3.Schema.MinItems), any(openapi3.Schema.MaxItems), any(openapi3.Schema.UniqueItems), any(openapi3.Schema.Enum), any(SchemaRefMap), any(elems(schemaRefMap)), any(elems([]any)), any(openapi3.Schema), any(openapi3.SchemaRef), any(elems(openapi3.SchemaRefs)), any(elems(map[string]interface{})), any(elems([]interface{})), schemaRefMap
 //@ requires config != nil && models != nil
 //@ requires swagtool.emittable(defs)
